@@ -173,6 +173,9 @@ func (s *Stored) ApplyNotModified(h http.Header, reqTime, respTime time.Time) *S
 		}
 		n.Header[k] = append([]string(nil), v...)
 	}
+	if len(h.Values("Age")) == 0 {
+		n.Header.Del("Age") // the age restarts from the validation: an Age received with the first copy says nothing about the 304
+	}
 	return n
 }
 
